@@ -77,6 +77,8 @@ func alphabet() []hmsg {
 	add(call("Call(q8,answer0[0])", 8, rpcsim.Target{Promised: true, ID: 0, Path: []uint16{0}}, 63, nil, nil))
 	add(call("Call(q8,answer0[7])", 8, rpcsim.Target{Promised: true, ID: 0, Path: []uint16{7}}, 63, nil, nil))
 	add(call("Call(q8,answer1[0])", 8, rpcsim.Target{Promised: true, ID: 1, Path: []uint16{0}}, 63, nil, nil))
+	add(call("Call(q8,answer8[0] itself)", 8, rpcsim.Target{Promised: true, ID: 8, Path: []uint16{0}}, 63, nil, nil))
+	add(call("Call(q8,answer8[] itself)", 8, rpcsim.Target{Promised: true, ID: 8}, 63, nil, nil))
 	// --- unknown union members / unsupported features
 	add(call("Call(q9,target kind 2)", 9, imp0, 64, nil, func(c rpccp.Call) {
 		t, _ := c.Target()
